@@ -27,7 +27,7 @@ RULE = ('a scenario issues 0-2 tickets through AuthTktCookieHelper.remember (or 
         'deletion, field splicing, timestamp re-spelling / arbitrary text) and runs identify/remember/forget sequences '
         'plus the response callbacks under a second helper configuration and clock; it is non-trivial when the '
         'presented cookie reaches the digest comparison (its fields parse) or the request has at least two '
-        'operations; distinct = distinct canonical scenario JSON')
+        'operations or is a history of at least two requests on one long-lived helper; distinct = distinct canonical scenario JSON')
 
 
 # ------------------------------------------------------------------------------------------------ instrumentation
@@ -141,13 +141,14 @@ def canon_identity(r):
             'userdata': r['userdata']}
 
 
-def run_request(cfg, ip, host, now, clock, cookie_header, ops):
+def run_request(cfg, ip, host, now, clock, cookie_header, ops, helper=None):
     """one request through the real helper.  Returns dict(results, response, seen, hashlog, din_per_op, cookie_error)"""
     old_time, old_hash = A.time_mod, A.hashlib
     rec = HashRec()
     A.time_mod, A.hashlib = Clock(clock), rec
     try:
-        helper = helper_of(cfg)
+        if helper is None:
+            helper = helper_of(cfg)     # a fresh helper; otherwise a long-lived instance shared by a history
         helper.now = now
         env = {'REMOTE_ADDR': ip, 'HTTP_HOST': host, 'SERVER_NAME': host.split(':')[0]}
         if cookie_header is not None:
@@ -423,6 +424,65 @@ def apply_edits(value, edits, issued, dszs):
     return value
 
 
+def build_header(name, ck, issued, dszs, infos):
+    """the Cookie header text (and the cookie value before quoting) a cookie spec stands for"""
+    header, value = None, None
+    if ck is not None:
+        if 'raw' in ck:
+            header = ck['raw']
+        else:
+            base = ck.get('base')
+            value = issued[base] if base is not None and base < len(issued) else ''
+            if value is None:
+                value = ''
+            if base is not None and base < len(issued):
+                order = [base] + [i for i in range(len(issued)) if i != base]
+            else:
+                order = list(range(len(issued)))
+            iv = [issued[i] or '' for i in order] or ['']
+            dz = [dszs[i] for i in order] or [32]
+            value = apply_edits(value, ck.get('edits', []), iv, dz)
+            if ck.get('quote') == 'verbatim' and base is not None and base < len(infos) and infos[base] and not ck.get('edits'):
+                header = '%s=%s' % (name, infos[base]['raw'])
+            else:
+                header = quote_cookie(name, value, ck.get('quote', 'webob'))
+            try:
+                header.encode('latin-1')
+            except UnicodeEncodeError:
+                header = None
+    return header, value
+
+
+def run_multi(sc):
+    """a HISTORY of requests against long-lived helper instances (one per entry of sc['helpers']); every request is
+    also answered by a fresh helper of the same configuration, for the history-independence clause of the oracle"""
+    helpers = [helper_of(c) for c in sc['helpers']]
+    issued, reqs, dszs, infos, steps = [], [], [], [], []
+    for iss in sc.get('issues', []):
+        cfg = iss['cfg']
+        dszs.append(ALGS[cfg['alg']] * 2)
+        ops = [{'op': 'remember', 'uid': iss['uid'], 'max_age': iss.get('max_age'), 'tokens': iss['tokens']}]
+        h = iss.get('h')
+        out = run_request(cfg, iss['ip'], iss['host'], iss['clock'], iss['clock'], None, ops,
+                          helper=helpers[h] if h is not None else None)
+        reqs.append((cfg, iss['ip'], iss['host'], iss['clock'], iss['clock'], ops, out))
+        r = out['results'][0]
+        if r['r'] == 'headers' and r['cookies']:
+            issued.append(r['cookies'][0]['value']); infos.append(r['cookies'][0])
+        else:
+            issued.append(None); infos.append(None)
+    header = None
+    out = None
+    for rq in sc['requests']:
+        cfg = sc['helpers'][rq['h']]
+        header, value = build_header(cfg['name'], rq.get('cookie'), issued, dszs, infos)
+        out = run_request(cfg, rq['ip'], rq['host'], rq['now'], rq['clock'], header, rq['ops'], helper=helpers[rq['h']])
+        fresh = run_request(cfg, rq['ip'], rq['host'], rq['now'], rq['clock'], header, rq['ops'])
+        reqs.append((cfg, rq['ip'], rq['host'], rq['now'], rq['clock'], rq['ops'], out))
+        steps.append({'cfg': cfg, 'rq': rq, 'header': header, 'long': out, 'fresh': fresh})
+    return {'issued': issued, 'reqs': reqs, 'header': header, 'value': None, 'final': out, 'steps': steps, 'multi': True}
+
+
 def run_scenario(sc):
     """execute a scenario on the real code; returns dict with per-request impl outputs and model cases"""
     issued, reqs, dszs, infos = [], [], [], []
@@ -443,31 +503,7 @@ def run_scenario(sc):
         else:
             issued.append(None)
             infos.append(None)
-    ck = sc.get('cookie')
-    header, value, verbatim = None, None, False
-    if ck is not None:
-        if 'raw' in ck:
-            header = ck['raw']
-        else:
-            base = ck.get('base')
-            value = issued[base] if base is not None and base < len(issued) else ''
-            if value is None:
-                value = ''
-            if base is not None and base < len(issued):
-                order = [base] + [i for i in range(len(issued)) if i != base]
-            else:
-                order = list(range(len(issued)))
-            iv = [issued[i] or '' for i in order] or ['']
-            dz = [dszs[i] for i in order] or [32]
-            value = apply_edits(value, ck.get('edits', []), iv, dz)
-            if ck.get('quote') == 'verbatim' and base is not None and base < len(infos) and infos[base] and not ck.get('edits'):
-                header = '%s=%s' % (sc['cfg']['name'], infos[base]['raw'])
-            else:
-                header = quote_cookie(sc['cfg']['name'], value, ck.get('quote', 'webob'))
-            try:
-                header.encode('latin-1')
-            except UnicodeEncodeError:
-                header = None
+    header, value = build_header(sc['cfg']['name'], sc.get('cookie'), issued, dszs, infos)
     out = run_request(sc['cfg'], sc['ip'], sc['host'], sc['now'], sc['clock'], header, sc['ops'])
     reqs.append((sc['cfg'], sc['ip'], sc['host'], sc['now'], sc['clock'], sc['ops'], out))
     return {'issued': issued, 'reqs': reqs, 'header': header, 'value': value, 'final': out}
@@ -639,7 +675,42 @@ def oracle(sc, ex):
     return viol
 
 
+def answer(out):
+    """what a client/application can observe of one request"""
+    v = impl_view(out)
+    return {'results': v['results'], 'response': v['response'], 'st': v['st'], 'cookie_error': out.get('cookie_error')}
+
+
+def oracle_multi(sc, ex):
+    """a history on long-lived helpers: (a) HISTORY INDEPENDENCE — identification is a function of (cookie, address, now,
+    configuration): every request gets the answer a fresh helper of the same configuration gives (the Lean model `identify`
+    has no helper-state argument); (b) each request on its own satisfies the single-request oracle"""
+    viol = []
+    for i, st in enumerate(ex['steps']):
+        a, b = answer(st['long']), answer(st['fresh'])
+        if a != b:
+            viol.append(('request %d: the long-lived helper answers %s, a fresh helper with the same configuration answers %s '
+                         '(the answer depends on earlier requests)' % (i, json.dumps(a['results'])[:300], json.dumps(b['results'])[:300]), None))
+        rq = st['rq']
+        sc_i = {'issues': sc.get('issues', []), 'cookie': rq.get('cookie'), 'cfg': st['cfg'], 'ip': rq['ip'], 'host': rq['host'],
+                'now': rq['now'], 'clock': rq['clock'], 'ops': rq['ops']}
+        ex_i = {'issued': ex['issued'], 'final': st['long'], 'header': st['header']}
+        for d, f in oracle(sc_i, ex_i):
+            viol.append(('request %d: %s' % (i, d), f))
+    return viol
+
+
+def last_view(sc):
+    """(cfg, ip, ops) of the (last) request of a scenario, for the distribution counters"""
+    if 'requests' in sc:
+        rq = sc['requests'][-1]
+        return sc['helpers'][rq['h']], rq['ip'], rq['ops']
+    return sc['cfg'], sc['ip'], sc['ops']
+
+
 def nontrivial(sc, ex):
+    if 'requests' in sc:
+        return len(sc['requests']) >= 2
     out = ex['final']
     seen = out.get('seen')
     f = spec_fields(seen, ALGS[sc['cfg']['alg']] * 2) if seen is not None else None
@@ -734,10 +805,88 @@ def ts_respell(rng, ts):
     return rng.choice(cands)
 
 
+REQ_KINDS = ('valid', 'other_ip', 'expired', 'edited', 'other_ticket', 'requoted', 'nocookie')
+
+
+def history_request(kind, cfg, ipA, ipB, host, t0, h=0, ops=None, edit=None, quote='webob'):
+    """one request of a history: the same issued cookie value (ticket 0) under different circumstances"""
+    rq = {'h': h, 'ip': ipA, 'host': host, 'now': t0 + 1, 'clock': t0 + 1, 'ops': ops or [{'op': 'identify'}],
+          'cookie': {'base': 0, 'edits': [], 'quote': quote}, 'what': kind}
+    if kind == 'other_ip':
+        rq['ip'] = ipB
+    elif kind == 'expired':
+        rq['now'] = rq['clock'] = t0 + (cfg['timeout'] or 50) + 1
+    elif kind == 'edited':
+        rq['cookie']['edits'] = [edit or ['sub', ALGS[cfg['alg']] * 2 + 9, 'x']]
+    elif kind == 'other_ticket':
+        rq['cookie']['base'] = 1
+    elif kind == 'requoted':
+        rq['cookie']['quote'] = 'octal'
+    elif kind == 'nocookie':
+        rq['cookie'] = None
+    rq['now'] = min(rq['now'], 2 ** 32 - 1); rq['clock'] = min(rq['clock'], 2 ** 32 - 1)
+    return rq
+
+
+def gen_multi(rng):
+    """a multi-request history against one (sometimes two) long-lived helper(s)"""
+    cfgA = gen_cfg(rng)
+    cfgA['include_ip'] = rng.random() < 0.75
+    cfgA['timeout'] = rng.choice([None, 10, 100, 0])
+    cfgA['reissue'] = rng.choice([None, None, 5])
+    helpers = [cfgA]
+    if rng.random() < 0.35:
+        helpers.append(gen_cfg(rng, cfgA))
+    ipA = gen_ip(rng)
+    ipB = rng.choice([i for i in IPS4 + IPS6 if i != ipA])
+    host = rng.choice(HOSTS)
+    t0 = rng.choice([c for c in CLOCKS if c < 2 ** 32 - 200])
+    issues = [{'cfg': cfgA, 'h': rng.choice([0, None]), 'ip': ipA, 'host': host, 'clock': t0, 'uid': gen_uid(rng), 'tokens': gen_tokens(rng), 'max_age': None},
+              {'cfg': cfgA, 'h': rng.choice([0, None]), 'ip': rng.choice([ipA, ipB]), 'host': host, 'clock': t0, 'uid': gen_uid(rng), 'tokens': gen_tokens(rng), 'max_age': None}]
+    reqs = []
+    for _ in range(rng.choice([2, 3, 3, 4, 5])):
+        kind = rng.choice(REQ_KINDS + ('valid', 'other_ip', 'expired'))
+        ops = None
+        r = rng.random()
+        if r < 0.15:
+            ops = [{'op': 'identify'}, {'op': 'identify'}]
+        elif r < 0.3:
+            ops = gen_ops(rng)
+        edit = [rng.choice(['sub', 'ins', 'del']), rng.randrange(200), rng.choice(EDIT_CHARS)]
+        if edit[0] == 'del':
+            edit = edit[:2]
+        rq = history_request(kind, cfgA, ipA, ipB, host, t0, h=rng.randrange(len(helpers)) if rng.random() < 0.4 else 0, ops=ops,
+                             edit=edit, quote=rng.choice(['webob', 'verbatim', 'plain', 'dq', 'octal']))
+        if rng.random() < 0.2:
+            rq['now'] = rq['clock'] = min(2 ** 32 - 1, t0 + rng.choice([0, 5, 6, 10, 11, 100, 101]))
+        reqs.append(rq)
+    return {'kind': 'multi', 'issues': issues, 'helpers': helpers, 'requests': reqs}
+
+
+def small_scope_histories():
+    """every sequence of 1..3 requests over the 7 request kinds, on one long-lived helper, for four configurations"""
+    out = []
+    base = {'secret': 'secret', 'name': 'auth_tkt', 'secure': False, 'include_ip': True, 'timeout': 10, 'reissue': None,
+            'max_age': None, 'http_only': False, 'path': '/', 'wild': True, 'parent': False, 'alg': 'md5', 'domain': None, 'samesite': 'Lax'}
+    import itertools
+    for over, ipA, ipB in (({}, '1.2.3.4', '1.2.3.5'), ({'alg': 'sha256', 'timeout': None, 'reissue': 0}, '::1', '2001:db8::1'),
+                           ({'include_ip': False}, '1.2.3.4', '10.0.0.1'), ({'timeout': 0, 'secret': 'k' * 64}, '10.0.0.1', '::1')):
+        cfg = dict(base); cfg.update(over)
+        issues = [{'cfg': cfg, 'h': 0, 'ip': ipA, 'host': 'example.com', 'clock': 1000, 'uid': {'t': 'str', 'v': 'alice'}, 'tokens': ['a'], 'max_age': None},
+                  {'cfg': cfg, 'h': None, 'ip': ipB, 'host': 'example.com', 'clock': 1000, 'uid': {'t': 'int', 'v': '7'}, 'tokens': [], 'max_age': None}]
+        for n in (1, 2, 3):
+            for kinds in itertools.product(REQ_KINDS, repeat=n):
+                out.append({'kind': 'multi-small-scope', 'issues': issues, 'helpers': [cfg],
+                            'requests': [history_request(k, cfg, ipA, ipB, 'example.com', 1000) for k in kinds]})
+    return out
+
+
 def gen_scenario(rng, kind=None):
     kind = kind or rng.choice(['valid', 'valid', 'valid', 'boundary', 'boundary', 'edit', 'edit', 'edit', 'splice', 'tsfield',
                                'other_helper', 'arbitrary', 'mint', 'history', 'history', 'nocookie', 'badip', 'quoting',
-                               'shift'])
+                               'shift', 'multi', 'multi', 'multi'])
+    if kind == 'multi':
+        return gen_multi(rng)
     cfgA = gen_cfg(rng)
     ipA = gen_ip(rng)
     host = rng.choice(HOSTS)
@@ -864,6 +1013,9 @@ def gen_scenario(rng, kind=None):
 # ------------------------------------------------------------------------------------------------ run / search / replay
 def evaluate(sc):
     """(execution, violations[(detail, finding)]) — never raises"""
+    if 'requests' in sc:
+        ex = run_multi(sc)
+        return ex, oracle_multi(sc, ex)
     ex = run_scenario(sc)
     return ex, oracle(sc, ex)
 
@@ -874,6 +1026,9 @@ def violation_record(sc, ex, vs):
                               'header': ex['header']},
          'expected': 'C09: issued tickets are accepted unchanged until they expire; anything else never raises and yields nothing or the original identity; reissue/forget/attributes as configured',
          'detail': '; '.join(d for d, _ in vs[:4])}
+    if ex.get('multi'):
+        v['impl']['history'] = [{'long_lived': answer(st['long'])['results'], 'fresh': answer(st['fresh'])['results'], 'header': st['header'],
+                                 'ip': st['rq']['ip'], 'now': st['rq']['now']} for st in ex['steps']]
     fids = {f for _, f in vs}
     if len(fids) == 1 and fid:
         v['finding'] = fid
@@ -914,15 +1069,18 @@ def process(ctx, scenarios, dist, use_model=True):
                 nontriv.add(key)
         fin = ex['final']
         vfutil.bump(dist['kinds'], sc.get('kind', 'corpus'))
-        vfutil.bump(dist['ops_per_request'], len(sc['ops']))
+        lcfg, lip, lops = last_view(sc)
+        vfutil.bump(dist['ops_per_request'], len(lops))
+        if 'requests' in sc:
+            vfutil.bump(dist['requests_per_history'], len(sc['requests']))
         for r in fin['results']:
             vfutil.bump(dist['results'], r['r'] if r['r'] != 'raised' else 'raised:' + r['err'])
         if fin.get('cookie_error'):
             vfutil.bump(dist['results'], 'cookies.get raised')
         if isinstance(fin.get('response'), list) and fin['response']:
             vfutil.bump(dist['results'], 'reissue attached')
-        vfutil.bump(dist['alg'], sc['cfg']['alg'])
-        vfutil.bump(dist['ip'], 'v6' if ':' in eff_ip(sc['cfg'], sc['ip']) else 'v4')
+        vfutil.bump(dist['alg'], lcfg['alg'])
+        vfutil.bump(dist['ip'], 'v6' if ':' in eff_ip(lcfg, lip) else 'v4')
         if vs:
             rec = violation_record(sc, ex, vs)
             if 'finding' in rec:
@@ -969,7 +1127,7 @@ def process(ctx, scenarios, dist, use_model=True):
 
 
 def new_dist():
-    return {'kinds': {}, 'ops_per_request': {}, 'results': {}, 'alg': {}, 'ip': {}, 'known_findings': {}}
+    return {'kinds': {}, 'ops_per_request': {}, 'results': {}, 'alg': {}, 'ip': {}, 'known_findings': {}, 'requests_per_history': {}}
 
 
 def exhaustive_edits(rng, budget):
@@ -1009,6 +1167,11 @@ def run(ctx):
     scenarios += [gen_scenario(rng) for _ in range(n)]
     ex_edits = exhaustive_edits(rng, ctx.n(600, 100000))
     scenarios += ex_edits
+    hist = small_scope_histories()
+    if ctx.tier == 'quick':
+        rng.shuffle(hist)
+        hist = hist[:300]
+    scenarios += hist
     res = {'evals': 0, 'agree': 0, 'mism': [], 'viol': [], 'keys': set()}
     nontriv_total = 0
     CH = 4000
@@ -1034,7 +1197,8 @@ def run(ctx):
             'exhaustive': False,
             'notes': ['%d corpus scenarios, %d generated, %d single-character edits of three issued tickets (%s)' % (
                 ncorpus, n, len(ex_edits), 'all' if ctx.tier == 'thorough' else 'a sample'),
-                'every request of a scenario (issuing ones too) is one driver line; first-hash inputs are compared byte for byte'],
+                'every request of a scenario (issuing ones too) is one driver line; first-hash inputs are compared byte for byte',
+                '%d small-scope histories (all sequences of <= 3 requests over %d request kinds x 4 configurations on ONE long-lived helper; %s) plus the random multi-request histories: every request must get the answer of a fresh helper' % (len(hist), len(REQ_KINDS), 'all' if ctx.tier == 'thorough' else 'a sample')],
             'assumptions': ['hash functions are uninterpreted in the model: hashlib answers through a recorded table',
                             'the Unicode database (whitespace / decimal digit of non-ASCII characters) is a table from unicodedata',
                             'WebOb parses the Cookie header and serialises Set-Cookie: exercised, not modelled',
@@ -1051,6 +1215,7 @@ def search(ctx):
     rng = ctx.rng
     dist = new_dist()
     scs = [c for _, c in ctx.corpus()]
+    scs += small_scope_histories()
     scs += exhaustive_edits(rng, 100000)
     base_cfg = {'secret': 'secret', 'name': 'auth_tkt', 'secure': False, 'include_ip': False, 'timeout': None, 'reissue': None,
                 'max_age': None, 'http_only': False, 'path': '/', 'wild': True, 'parent': False, 'alg': 'md5', 'domain': None, 'samesite': 'Lax'}
